@@ -67,7 +67,7 @@ class TLCResult:
             self.violated = m2.group(1)
         if "Temporal properties were violated" in out and not self.violated:
             self.violated = "<temporal>"
-        if "Postcondition" in out and "violated" in out:
+        if re.search(r"[Pp]ostcondition[^\n]*(false|violated)", out):
             self.violated = self.violated or "<postcondition>"
         self.ok = rc == 0
         self.safety_violation = rc in (12, 13) or self.violated is not None
